@@ -983,6 +983,9 @@ Definition tag_ok (a : arena) : bool :=
   | None => true
   end.
 
+Lemma tag_ok_eq a : tag_ok a = root_tag_ok a.
+Proof. reflexivity. Qed.
+
 Lemma cur_checkpoint_app gs g e v n :
   cur_checkpoint (mkA (gs ++ [g]) e v n) = (ag_nodes g, ag_values g, ag_entries g).
 Proof. unfold cur_checkpoint. cbn [a_gens]. rewrite rev_app_distr. reflexivity. Qed.
@@ -1335,7 +1338,7 @@ Proof.
   pose proof (hist_len base saved Hb) as Ln.
   pose proof (hist_len c1 _ H2) as Lc. rewrite app_length in Lc. cbn [length] in Lc.
   destruct (normalize_hist _ c1 (length (a_gens (as_arena base)) - 1) H2 S2 ltac:(lia)) as (b & Hn & Hs & _).
-  rewrite Hs in Hc. subst c.
+  subst c. change (fst (as_step (ONormalize (length (a_gens (as_arena base)) - 1)) c1) = base). rewrite Hs.
   replace (length (a_gens (as_arena c1)) - S (length (a_gens (as_arena base)) - 1) - 1) with (length sv') in Hn by lia.
   rewrite nth_error_app2, Nat.sub_diag in Hn by lia. cbn in Hn. congruence.
 Qed.
@@ -1344,12 +1347,45 @@ Qed.
 Lemma SInv_init : SInv as_init.
 Proof.
   unfold SInv, as_init. cbn [as_arena as_handles cur_handles]. split; [|split; [constructor | split; [discriminate | reflexivity]]].
-  apply AInv_intro; cbn; try lia.
+  assert (C1 : cpn a_empty = 0) by reflexivity. assert (C2 : cpv a_empty = 0) by reflexivity.
+  assert (C3 : cpe a_empty = 0) by reflexivity.
+  apply AInv_intro; rewrite ?C1, ?C2, ?C3.
+  - cbn. lia.
   - intros i Hi. lia.
-  - intros i _. unfold node_at. cbn. destruct i; apply NodeOK_default.
-  - intros e v _ Hnth. destruct e; discriminate.
-  - unfold cur_root. cbn. discriminate.
+  - intros i _. unfold node_at. cbn [a_empty a_nodes]. destruct i; apply NodeOK_default.
+  - intros e v _ Hnth. cbn [a_empty a_entries] in Hnth. destruct e; discriminate.
+  - intros r Hr. discriminate.
 Qed.
 
 Lemma Hist_init : Hist as_init [].
 Proof. reflexivity. Qed.
+
+(** Every state reached by a (checked) history from the initial state satisfies the
+    invariant and has its saved generations. *)
+Lemma exec_inv : forall ops c saved c',
+  Hist c saved -> SInv c -> as_exec ops c = Some c' -> exists saved', Hist c' saved' /\ SInv c'.
+Proof.
+  induction ops as [|o ops IH]; intros c saved c' HH HS Hex; cbn [as_exec] in Hex.
+  - inversion Hex; subst. eauto.
+  - destruct o;
+      try (match type of Hex with
+           | as_exec ops (fst (as_step ?o c)) = _ =>
+               apply (IH (fst (as_step o c)) saved);
+               [apply Hist_step; [exact HH | exact HS | reflexivity]
+               | apply (proj1 (proj2 (as_step_cow o c HS eq_refl))) | exact Hex]
+           end).
+    + destruct (tag_ok (as_arena c)) eqn:Et; [|discriminate].
+      destruct (newgen_step c _ HH HS Et) as (H1 & S1).
+      apply (IH (fst (as_step ONewGen c)) (c :: saved)); assumption.
+    + pose proof HS as (_ & _ & _ & Hlc).
+      destruct (Nat.le_gt_cases (length (a_gens (as_arena c))) (S r)) as [Hle|Hgt].
+      * rewrite (normalize_noop c r Hlc Hle) in Hex. apply (IH c saved); assumption.
+      * destruct (normalize_hist _ c r HH HS Hgt) as (b & Hn & Hs & Hh & Sb). rewrite Hs in Hex.
+        apply (IH b _ c' Hh Sb Hex).
+Qed.
+
+Theorem reachable_inv ops s :
+  as_exec ops as_init = Some s -> SInv s /\ exists saved, Hist s saved.
+Proof.
+  intros H. destruct (exec_inv ops as_init [] s Hist_init SInv_init H) as (sv & H1 & H2). eauto.
+Qed.
